@@ -22,7 +22,7 @@ def all_cases(tier):
                         out.append({"kind": "split", "n": n, "test": ts, "val": vs, "shuffle": "seed%d" % seed})
     for n in range(0, 11):
         for b in range(1, 7):
-            for tr in ("none", "default", "identity", "scale"):
+            for tr in ("none", "default", "identity", "scale", "scale_positional"):
                 out.append({"kind": "loader", "n": n, "batch": b, "transform": tr})
             for yl in ("column", "onehot3", "list"):          # label containers other than a 1-D array
                 out.append({"kind": "loader", "n": n, "batch": b, "transform": "default", "ylayout": yl})
@@ -99,6 +99,7 @@ def judge(case):
             if tr == "default": dl = D.DataLoader(X, y, b)
             elif tr == "none": dl = D.DataLoader(X, y, b, transform=None)
             elif tr == "identity": dl = D.DataLoader(X, y, b, transform=Ident())
+            elif tr == "scale_positional": dl = D.DataLoader(X, y, b, Scale())      # transform passed as the 4th positional argument
             else: dl = D.DataLoader(X, y, b, transform=Scale())
             nb = n // b
             if len(dl) != nb: v("len", f"len(loader)={len(dl)}, floor({n}/{b})={nb}")
@@ -109,10 +110,10 @@ def judge(case):
                     v("batch-count" if rep == 0 else "not-re-iterable", f"pass {rep}: {len(batches)} batches, expected {nb}"); break
                 for k, (Xb, yb) in enumerate(batches):
                     eX, ey = np.asarray(X[k * b:(k + 1) * b]), np.asarray(y[k * b:(k + 1) * b])
-                    if tr == "scale": eX, ey = eX * 2, ey + 1
+                    if tr.startswith("scale"): eX, ey = eX * 2, ey + 1
                     if len(yb) != b or not (np.array_equal(np.asarray(Xb), eX) and np.array_equal(np.asarray(yb), ey)):
                         v("batch-content", f"pass {rep} batch {k}: labels {np.asarray(yb)}, expected {ey}"); break
-                if tr in ("identity", "scale") and calls != [b] * nb:
+                if tr in ("identity", "scale", "scale_positional") and calls != [b] * nb:
                     v("transform-calls", f"transform called with batch sizes {calls}, expected once per batch")
             if nb >= 2:
                 # restart after a partial pass
